@@ -38,7 +38,7 @@ tvars == <<tid, l, ms, fail, info>>
 SeqToSet(s) == {s[i] : i \in 1..Len(s)}
 NewObj(o) == [cfg |-> [S |-> o.S, M |-> o.mode, vars |-> SeqToSet(o.vars)],
               phase |-> "new", phi |-> Null, inst |-> Null,
-              fed |-> [v \in SeqToSet(o.vars) |-> <<>>], emitted |-> <<>>, nupd |-> 0, last |-> <<>>,
+              fed |-> [v \in SeqToSet(o.vars) |-> <<>>], emitted |-> <<>>, nupd |-> 0, mu |-> 0, last |-> <<>>,
               dead |-> FALSE, gets |-> <<>>]
 InitMs(c) == [i \in 1..Len(c.objs) |-> NewObj(c.objs[i])]
 NoCase == [objs |-> <<>>, events |-> <<>>, rels |-> <<>>, tid |-> 0, skip |-> <<>>]
@@ -130,7 +130,8 @@ ApplyUpdate(m, e, step) ==
   IF ~OnlineCtOK(m.inst) THEN R(m, ExcClass(FALSE, e, "update.exc", step), 0)
   ELSE
     LET m1 == [m EXCEPT !.phase = "online", !.fed = ConcatW(m.fed, e.w, m.cfg.vars),
-                        !.emitted = m.emitted \o e.ret, !.nupd = m.nupd + 1, !.last = e.ret]
+                        !.emitted = m.emitted \o e.ret, !.nupd = m.nupd + 1, !.last = e.ret,
+                        !.mu = IF m.nupd + 1 > m.mu THEN m.nupd + 1 ELSE m.mu]   \* mu: most updates in one segment
         f0 == ExcClass(TRUE, e, "update.exc", step)
         f1 == IF f0 = Ok /\ ~Monotone(m1.emitted) THEN F("update.monotone", step, "non-decreasing time-stamps", m1.emitted) ELSE Ok
         f2 == IF f0 = Ok /\ ~e.same THEN F("update.argsMutated", step, "unchanged", "changed") ELSE Ok IN
@@ -214,12 +215,12 @@ Explained(c, fl) ==
   \* F-05b: dense-time online, a binary node both of whose operands are constant-valued, second or later update():
   \* constants are re-emitted as [[0,c],[inf,c]] by every update and the operator's buffers become non-monotone
   (IF f.clause \in {"update.exc", "update.value", "update.monotone", "rel.same_fn"}
-      /\ \E i \in 1..Len(ms) : ms[i].inst.op # "null" /\ ms[i].nupd >= 2
+      /\ \E i \in 1..Len(ms) : ms[i].inst.op # "null" /\ ms[i].mu >= 2
             /\ \E q \in SubF(ms[i].inst) : q.op \in Bin2 /\ VarsOf(q) = {}
    THEN {"F-05b"} ELSE {}) \cup
   \* F-05a: dense-time online monitor, a timed operator in the installed AST and more than one update()
   (IF f.clause \in {"update.value", "update.exc", "update.monotone", "rel.same_fn"}
-      /\ \E i \in 1..Len(ms) : ms[i].inst.op # "null" /\ HasTimed(ms[i].inst) /\ ms[i].nupd >= 2
+      /\ \E i \in 1..Len(ms) : ms[i].inst.op # "null" /\ HasTimed(ms[i].inst) /\ ms[i].mu >= 2
    THEN {"F-05a"} ELSE {})
 
 Verdict(c, fl) ==
